@@ -33,6 +33,11 @@ def main():
 
     conformance_thespian.selftest()
     print("selftest conformance with recorded Thespian traces ok")
+    # ... and the virtual event loop every log recorded from the real asyncio loop
+    import conformance_asyncio
+
+    conformance_asyncio.selftest()
+    print("selftest conformance with recorded asyncio logs ok")
     print("setup ok" if ok else "setup FAILED")
     return 0 if ok else 1
 
